@@ -207,6 +207,7 @@ class Machine:
         self.pc = []          # path condition (list of z3 Bool)
         self.result = None    # ('ret', value) | ('panic', msg)
         self.steps = 0
+        self.root_args = None
 
     def fork(self, cond):
         m = copy.deepcopy(self)
@@ -215,8 +216,8 @@ class Machine:
 
 
 class Outcome:
-    def __init__(self, pc, kind, value):
-        self.pc, self.kind, self.value = pc, kind, value
+    def __init__(self, pc, kind, value, args=None):
+        self.pc, self.kind, self.value, self.args = pc, kind, value, args
 
     def __repr__(self):
         return 'Outcome(%s, %r)' % (self.kind, self.value)
@@ -259,6 +260,7 @@ class VM:
         m.pc = list(pc)
         m.frames.append(Frame(self.get_func(fname), args))
         m.frames[-1].tybind = dict(tybind or {})
+        m.root_args = args        # forks deep-copy the machine: each outcome sees its own copy of by-reference arguments
         return self.run_machine(m)
 
     def run_machine(self, m0):
@@ -278,9 +280,9 @@ class VM:
                         m = None
                         break
                 if m is not None:
-                    done.append(Outcome(m.pc, m.result[0], m.result[1]))
+                    done.append(Outcome(m.pc, m.result[0], m.result[1], getattr(m, 'root_args', None)))
             except NativePanic as ex:
-                done.append(Outcome(m.pc, 'panic', ex.msg))
+                done.append(Outcome(m.pc, 'panic', ex.msg, getattr(m, 'root_args', None)))
         return done
 
     def feasible(self, pc):
@@ -701,11 +703,22 @@ class VM:
                     caps.append(self.operand(m, fr, f.split(': ', 1)[1]))
             return Closure(mm.group(1), caps, fr.func.name, getattr(fr, 'tybind', None))
         # ADT aggregates: Path::<..>::Variant(args) | Path { f: v, .. } | Path::Variant
-        mm = re.fullmatch(r'(.+?)(?:\((.*)\))', rv, re.S)
-        if mm and not rv.startswith('<'):
-            path = mm.group(1)
-            args = [self.operand(m, fr, x) for x in split_top(mm.group(2))]
-            return self.adt(path, args)
+        if rv.endswith(')') and not rv.startswith('<'):
+            # ADT aggregate Path::<..>::Variant(args): the argument list is the parenthesis group that closes last
+            depth, j = 0, len(rv) - 1
+            while j >= 0:
+                c = rv[j]
+                if c in ')]}':
+                    depth += 1
+                elif c in '([{':
+                    depth -= 1
+                    if depth == 0:
+                        break
+                j -= 1
+            if j > 0:
+                path, inner = rv[:j], rv[j + 1:-1]
+                args = [self.operand(m, fr, x) for x in split_top(inner)] if inner.strip() else []
+                return self.adt(path, args)
         mm = re.fullmatch(r'([\w:<>, &\'\[\]]+?) \{(.*)\}', rv, re.S)
         if mm:
             fields = []
@@ -935,8 +948,8 @@ class VM:
         # 2. closures called through Fn traits
         if re.search(r'as Fn(Once|Mut)?<', callee) and args and isinstance(self.deref_value(args[0]), Closure):
             clo = self.deref_value(args[0])
-            fname = self.closure_fn(clo.span, clo.owner)
             packed = args[1]
+            fname = self.closure_fn(clo.span, clo.owner, packed.items if isinstance(packed, Tup) else [packed])
             cargs = [args[0] if isinstance(args[0], Ref) else Ref(Cell(clo))] + (packed.items if isinstance(packed, Tup) else [packed])
             r = self.push(m, fr, fname, cargs, dst, retbb)
             m.frames[-1].tybind = dict(clo.tybind)
@@ -1111,7 +1124,7 @@ class VM:
         m.frames.append(nf)
         return None
 
-    def closure_fn(self, span, owner=None):
+    def closure_fn(self, span, owner=None, argvals=None):
         """MIR body of a closure. Macro-generated closures share one source span, so the closure is looked up among the
         closures of the function that created it."""
         if self.closure_index is None:
@@ -1127,7 +1140,32 @@ class VM:
             mine = [c for c in cands if c.startswith(owner + '::{closure#')]
             if len(mine) == 1:
                 return mine[0]
+            if mine and argvals is not None:
+                # macro arms share span and owner: pick the body whose parameter types fit the runtime arguments
+                fit = [c for c in mine if self._params_fit(self.get_func(c), argvals)]
+                if len(fit) == 1:
+                    return fit[0]
         raise Unsupported('ambiguous closure %s (owner %s): %d bodies' % (span, owner, len(cands)))
+
+    def _params_fit(self, f, argvals):
+        ps = f.params[1:]
+        if len(ps) == 1 and len(argvals) != 1:
+            return True
+        for (_, ty), v in zip(ps, argvals):
+            v = self.deref_value(v)
+            t = ty.strip().lstrip('&').strip()
+            if t.startswith('mut '):
+                t = t[4:]
+            if isinstance(v, BV):
+                if t not in INT_TYPES or INT_TYPES[t] != (v.width(), v.signed):
+                    return False
+            elif isinstance(v, Str):
+                if t not in ('str', 'std::string::String'):
+                    return False
+            elif isinstance(v, (BoolRef, bool)):
+                if t != 'bool':
+                    return False
+        return True
 
     def resolve_callee(self, callee, args):
         if callee in self.resolved:
